@@ -116,7 +116,7 @@ func ruleC06Core(e *Env, rule string) {
 	}
 	// the global comparator is the default one and nothing reassigns it
 	g := e.Var(rule, "sem", "ComparePreRelease")
-	dcp := e.P.Func("sem", "DefaultComparePreRelease")
+	dcp := e.F("sem", "DefaultComparePreRelease")
 	if g != nil {
 		if f := e.C.GlobalFuncInit(g); f == nil || flow.Origin(f) != dcp {
 			e.S.Bad(rule, "sem.ComparePreRelease", "initialiser", "the global comparator is not initialised to DefaultComparePreRelease (or is reassigned inside the module)", "", "")
@@ -239,7 +239,7 @@ func ruleC06Entry(e *Env, rule string) {
 			continue
 		}
 		site := flow.FnName(fn)
-		parser := e.P.Func("sem", x.parser)
+		parser := e.F("sem", x.parser)
 		method := e.P.Method("sem", "Ver", x.method)
 		var parses []*ssa.Call
 		for _, c := range e.C.Calls(fn, flow.InRepo) {
